@@ -19,6 +19,8 @@ struct Conn {
     spec: Vec<BTreeSet<i32>>,
     /// An in-flight count was injected with `setc inf=` in this case: the set spec no longer applies.
     inf_injected: bool,
+    /// C05 ghost: newest tracker write per slot (seq, conn id, time), purged on link removal.
+    trk_ghost: std::collections::HashMap<u32, (u32, u64, u64)>,
 }
 
 fn show_phase(p: &LinkPhase) -> String {
@@ -78,7 +80,7 @@ impl Conn {
     fn new() -> Self {
         let rt = tokio::runtime::Builder::new_current_thread().enable_all().build().unwrap();
         let listener = rt.block_on(async { tokio::net::UdpSocket::bind("127.0.0.1:0").await.unwrap() });
-        Conn { rt, listener, links: Vec::new(), trk: SequenceTracker::new(), spec: Vec::new(), inf_injected: false }
+        Conn { rt, listener, links: Vec::new(), trk: SequenceTracker::new(), spec: Vec::new(), inf_injected: false, trk_ghost: Default::default() }
     }
 
     fn show(&self) -> String {
@@ -279,6 +281,7 @@ impl Component for Conn {
         self.spec.clear();
         self.trk = SequenceTracker::new();
         self.inf_injected = false;
+        self.trk_ghost.clear();
         verif_clock::set(None);
     }
 
@@ -349,6 +352,7 @@ impl Component for Conn {
                     }
                     if toks[0] == "route" {
                         self.trk.insert(seq, c.conn_id, t);
+                        self.trk_ghost.insert(seq % 16384, (seq, c.conn_id, t));
                     }
                     c.register_packet(seq as i32, t);
                     self.spec[i].insert(seq as i32);
@@ -362,6 +366,7 @@ impl Component for Conn {
                     return "bad-op".into();
                 };
                 self.trk.insert(seq, cid, t);
+                self.trk_ghost.insert(seq % 16384, (seq, cid, t));
                 self.show()
             }
             ["evt", idx, classic, now, acks, sacks, naks] => {
@@ -455,6 +460,7 @@ impl Component for Conn {
                 for nk in &naks {
                     let before: Vec<Snap> = self.links.iter().map(snap).collect();
                     let tracked = self.trk.get(*nk, now);
+                    self.mon_tracker(mon, *nk, now, tracked);
                     let tracked_pos = tracked.and_then(|cid| self.links.iter().position(|c| c.conn_id == cid));
                     let mut inc = SrtlaIncoming { read_any: true, ..Default::default() };
                     inc.nak_numbers.push(*nk);
@@ -581,6 +587,7 @@ impl Component for Conn {
                 }
                 let id = self.links[i].conn_id;
                 self.trk.remove_connection(id);
+                self.trk_ghost.retain(|_, v| v.1 != id);
                 self.links.remove(i);
                 self.spec.remove(i);
                 mon.count("remove");
@@ -588,7 +595,9 @@ impl Component for Conn {
             }
             ["get", seq, now] => {
                 let (Ok(seq), Ok(now)) = (seq.parse::<u32>(), now.parse::<u64>()) else { return "bad-op".into() };
-                format!("get={}", show_opt(self.trk.get(seq, now)))
+                let got = self.trk.get(seq, now);
+                self.mon_tracker(mon, seq, now, got);
+                format!("get={}", show_opt(got))
             }
             _ => "bad-op".into(),
         }
@@ -596,6 +605,21 @@ impl Component for Conn {
 }
 
 impl Conn {
+    /// C05: the tracker remembers the carrier of the unique copy for 5 s, unless displaced by a
+    /// colliding newer number or purged with its link (independent ghost).
+    fn mon_tracker(&self, mon: &mut Mon, seq: u32, now: u64, got: Option<u64>) {
+        let exp = match self.trk_ghost.get(&(seq % 16384)) {
+            Some((s, cid, t)) if *s == seq && *cid != 0 && now.saturating_sub(*t) <= 5000 => Some(*cid),
+            _ => None,
+        };
+        if exp.is_some() {
+            mon.count("tracker-remembers");
+        }
+        if got != exp {
+            mon.fail("C05", "tracker-memory", format!("tracker lookup of {seq} at {now}: got {got:?}, expected {exp:?} (5 s memory, newest write per slot, purged with its link)"));
+        }
+    }
+
     /// The set spec is only meaningful while no in-flight count has been injected by `setc inf=`.
     fn mon_spec_if_clean(&self, mon: &mut Mon, op: &str) {
         if !self.inf_injected {
